@@ -83,11 +83,13 @@ def householder(n):
 class Aff:
     """x -> M x + t, with the similarity ratio and the sign of the determinant."""
 
-    def __init__(self, m=None, t=None, ratio=Fr(1), det=1):
+    def __init__(self, m=None, t=None, ratio=Fr(1), det=1, dm=None):
         self.m = m or IDENT
         self.t = t or [Fr(0)] * 3
         self.ratio = ratio
         self.det = det
+        # action on axis directions (unit axial vectors): the rotational part, reversed by every reflection
+        self.dm = dm or IDENT
 
     def pt(self, p):
         q = mat_vec(self.m, V(p))
@@ -100,13 +102,21 @@ class Aff:
         """self first, then other"""
         m = mat_mul(other.m, self.m)
         t = [a + b for a, b in zip(mat_vec(other.m, self.t), other.t)]
-        return Aff(m, t, self.ratio * other.ratio, self.det * other.det)
+        return Aff(m, t, self.ratio * other.ratio, self.det * other.det, mat_mul(other.dm, self.dm))
 
     @staticmethod
     def about(m, origin, ratio=Fr(1), det=1) -> "Aff":
         o = V(origin)
         mo = mat_vec(m, o)
-        return Aff(m, [o[i] - mo[i] for i in range(3)], ratio, det)
+        # direction action: m / ratio, times the sign of the determinant
+        dm = [[c / ratio * det for c in r] for r in m] if ratio > 0 else IDENT
+        return Aff(m, [o[i] - mo[i] for i in range(3)], ratio, det, dm)
+
+    def fdir(self, v):
+        import numpy as np
+
+        m = np.array([[float(c) for c in r] for r in self.dm])
+        return m @ np.asarray(v, dtype=float)
 
     def fpt(self, p):
         import numpy as np
@@ -230,6 +240,7 @@ def build_step_objects(steps: List[dict]):
 def build(s: dict):
     import classy_blocks as cb
     from classy_blocks.construct.array import Array
+    from classy_blocks.construct.assemblies.joints import CuspCylinder
     from classy_blocks.construct.flat.sketches.annulus import Annulus
     from classy_blocks.construct.flat.sketches.disk import QuarterDisk
     from classy_blocks.construct.point import Point
@@ -285,6 +296,7 @@ def build(s: dict):
             "ExtrudedShape": cb.ExtrudedShape,
             "RevolvedShape": cb.RevolvedShape,
             "LoftedShape": cb.LoftedShape,
+            "CuspCylinder": CuspCylinder,
             "TJoint": cb.TJoint,
             "LJoint": cb.LJoint,
             "NJoint": cb.NJoint,
@@ -536,6 +548,14 @@ def geometry(e) -> dict:
                 labels.update(ed.get("label", []))
         g["geometry_keys"] = sorted(geo.keys())
         g["labels_used"] = sorted(labels)
+        import re
+
+        for props in geo.values():
+            text = " ".join(props)
+            c = re.search(r"centre \(([^)]*)\)", text)
+            r = re.search(r"radius ([-+0-9.eE]+)", text)
+            if "searchableSphere" in text and c and r:
+                g["sphere"] = {"centre": [float(x) for x in c.group(1).split()], "radius": float(r.group(1))}
     return g
 
 
@@ -1367,6 +1387,36 @@ class C09(core.Check):
                     if not _near(e, obs, 1e-6 * (1 + max(abs(x) for x in e))):
                         out.append({"site": f"{cls}:center-not-carried-along", "what": f"centre before step {i}", "observed": obs, "expected": e})
                         break
+        # every leaf object on its own: point cells by the affine map, axis directions by its rotational part
+        if not impl["aliased"]:
+            cells0 = impl["cells0"]
+            toks = impl["tree1"]
+            if case["copy"]:
+                toks = toks[toks.index(("|",)) + 1 :]
+                first = min((t[1] for t in toks if t[0] in ("P", "D", "A")), default=0)
+                base = min((t[1] for t in impl["tree1"] if t[0] in ("P", "D", "A")), default=0)
+                shift = first - base
+            else:
+                shift = 0
+            for t in toks:
+                if t[0] in ("P", "D") and 0 <= t[1] - shift < len(cells0) and cells0[t[1] - shift] is not None:
+                    src = cells0[t[1] - shift]
+                    e = list(aff.fpt(src)) if t[0] == "P" else list(aff.fdir(src))
+                    if not _near(e, t[2], REL_TOL * (1 + max(abs(c) for c in e))):
+                        what = "a point of the entity is not the image of the original point" if t[0] == "P" else "an axis direction of the entity is not the rotated/reflected original direction (or was displaced)"
+                        out.append({"site": f"{where}:{'point' if t[0] == 'P' else 'direction'}-cell", "what": what, "observed": t[2], "expected": e})
+                        break
+                elif t[0] == "A" and 0 <= t[1] - shift < len(cells0):
+                    rows0 = [cells0[t[1] - shift + i] for i in range(len(t[2]))]
+                    if any(r is None for r in rows0):
+                        continue
+                    e = [list(aff.fpt(r)) for r in rows0]
+                    sc = 1 + max(abs(c) for r in e for c in r)
+                    same = all(_near(a, b, REL_TOL * sc) for a, b in zip(e, t[2]))
+                    rev = all(_near(a, b, REL_TOL * sc) for a, b in zip(reversed(e), t[2]))
+                    if not (same or rev):
+                        out.append({"site": f"{where}:array-cell", "what": "the rows of a point array are not the images of the original rows", "observed": t[2], "expected": e})
+                        break
         g0, g1 = impl["geom0"], impl["geom1"]
         if len(g0["units"]) != len(g1["units"]):
             out.append({"site": f"{where}:unit-count", "what": f"{len(g0['units'])} units became {len(g1['units'])}"})
@@ -1388,6 +1438,11 @@ class C09(core.Check):
         if m0 and m1:
             if ("error" in m0) != ("error" in m1) or (("error" not in m0) and (m0["vertices"], m0["edges"]) != (m1["vertices"], m1["edges"])):
                 out.append({"site": f"{where}:assembled-counts", "what": f"assembled mesh of the original {_counts(m0)}, of the transformed entity {_counts(m1)}"})
+        if "sphere" in g0 and "sphere" in g1:
+            ec = list(aff.fpt(g0["sphere"]["centre"]))
+            er = float(aff.ratio) * g0["sphere"]["radius"]
+            if not _near(ec, g1["sphere"]["centre"], 1e-6 * (1 + max(abs(c) for c in ec))) or abs(er - g1["sphere"]["radius"]) > 1e-6 * (1 + er):
+                out.append({"site": f"{cls}:{kinds}:searchable-sphere", "what": "the searchableSphere written for the shape is not the image of the original one", "observed": g1["sphere"], "expected": {"centre": ec, "radius": er}})
         if "geometry_keys" in g1:
             missing = [l for l in g1["labels_used"] if l.startswith("sphere_") and l not in g1["geometry_keys"]]
             if missing:
